@@ -431,7 +431,7 @@ def run(ctx):
 
 MANIFEST = {
     "category": "other",
-    "technique": "panic-site reachability over the workspace call graph from Manager::process, wire-enum dispatch totality (arm-runs-into-panic rule with caller-guard discharge), reviewed-site table, edge-avoiding reachability for duplicate-test-before-mutator",
+    "technique": "panic-site reachability over the workspace call graph from Manager::process, wire-enum dispatch totality (arm-runs-into-panic rule with caller-guard discharge), reviewed-site table, edge-avoiding reachability for duplicate-test-before-mutator; pairing of duplicate tests with their recorders (must-pass in the not-seen world, read/write field sets)",
     "text": "Partial: decides the structural parts (no remote-chosen variant is dispatched into a panic, no unreviewed panic site in the handling layer, every mutator behind a duplicate test). Equality of states and events over re-delivery histories is not decided.",
     "note": "Trusted: rustc MIR, driver, rule engine; reviewed `invariant` sites are assumptions listed in the evidence.",
 }
